@@ -9,6 +9,7 @@ Exit codes: 0 property held on everything explored (KNOWN-FINDING lines possible
 1 violation (prints "VIOLATION property=<id> replay=<path>"), 2 machinery trouble.
 """
 import copy
+import re
 import fcntl
 import hashlib
 import json
@@ -35,7 +36,7 @@ PLAN = {
     "C05": dict(quick=20000, thorough=1500000, timeout=60),
     "C27": dict(quick=20000, thorough=1000000, timeout=60),
     "C24": dict(quick=3000, thorough=200000, timeout=60),
-    "C19": dict(quick=160, thorough=6000, timeout=300),
+    "C19": dict(quick=480, thorough=12000, timeout=300),
     "C29": dict(quick=10000, thorough=400000, timeout=90),
     "C18": dict(quick=1600, thorough=40000, timeout=240), "C20": dict(quick=400, thorough=20000, timeout=240),
     "C21": dict(quick=320, thorough=30000, timeout=300),
@@ -340,7 +341,7 @@ def crash_class(log):
     lines = log.splitlines()
     for i, l in enumerate(lines):
         if l.startswith("panic:") or l.startswith("fatal error:"):
-            msg = l.strip()[:160]
+            msg = re.sub(r"\d+", "N", l.strip()[:160])  # (indices and lengths vary with the input)
             for m in lines[i + 1:]:
                 m = m.strip()
                 if m.startswith("github.com/pion/") and m.endswith(")"):
@@ -555,7 +556,7 @@ def cmd_check(prop, tier, runs=None, workers=None):
                   "replay_class": hmeta.get("replay_class"), "count_in_batch": len(rows), "case": case_obj,
                   "history": row.get("log")}
         if row["verdict"] == "crash":
-            replay["crash_log"] = row.get("log", "")[-20000:]
+            replay["crash_log"] = row.get("log", "")
             if case_obj is None and row.get("index") is not None:
                 # regenerate the case of the crashed run to make the replay self-contained
                 replay["regen"] = {"base": seed, "index": row["index"], "total": total, "harness": hid}
